@@ -893,6 +893,11 @@ def main(ctx):
                                               'detail': bad[0][1] + ' (minimised)'})
             except Exception as x:  # shrinking is best effort
                 ctx.notes.append(f'shrink failed: {type(x).__name__}: {x}')
+        # kernels regenerated from the source by the symbolic translator (translator validation; the bridge to the model is
+        # proved in Lean, AeicProofs/Lemmas/KernelBridge2.lean)
+        from harness import kernels
+
+        kernels.check_sym(ctx, files={'emissions/gse.py', 'emissions/apu.py'})
     finally:
         try:
             Config.reset()
